@@ -635,8 +635,16 @@ func TrueReturn(idx int, guard FP) func(ssa.Instruction, resolver) bool {
 		if b, ok := boolConst(v); ok {
 			return b
 		}
-		if guard != nil && guard(Fact{Op: "true", X: v}) {
+		if pinnedAs(v, "false") {
 			return false
+		}
+		if guard != nil {
+			// returning the value of a test is passing that test when the result is true
+			for _, f := range condFacts(v, true, res) {
+				if guard(f) {
+					return false
+				}
+			}
 		}
 		return true
 	}
